@@ -311,16 +311,18 @@ theorem inv_deleteTopic {s : St} (h : Inv s) (via : Nat) (r : TopicRef) : Inv (d
               · exact h
               · frame_auto h
 
-theorem inv_createCft {s : St} (h : Inv s) (r : TopicRef) (n : String) : Inv (createCft s r n).1 := by
+theorem inv_createCft {s : St} (h : Inv s) (r : TopicRef) (n : String) (v : Bool) : Inv (createCft s r n v).1 := by
   unfold createCft
   split
   · exact h
   · split
     · exact h
-    · simp only
-      split
+    · split
       · exact h
-      · frame_auto h
+      · simp only
+        split
+        · exact h
+        · frame_auto h
 
 theorem inv_deleteCft {s : St} (h : Inv s) (ph : Nat) (n : String) : Inv (deleteCft s ph n).1 := by
   unfold deleteCft
